@@ -18,7 +18,10 @@ import numpy as np
 from glue.core import Data, DataCollection
 from glue.core.exceptions import IncompatibleAttribute
 from glue.core.link_helpers import JoinLink
-from glue.core.subset import ElementSubsetState, MaskSubsetState
+from glue.core.subset import ElementSubsetState, MaskSubsetState, RangeSubsetState
+from glue.core.hub import HubListener
+from glue.core.message import SubsetUpdateMessage
+from glue.core.link_helpers import LinkSame
 
 from vf.ctx import stable_hash
 from vf.common import VIEW_KINDS, make_view, describe_view, apply_view, same_array
@@ -49,14 +52,45 @@ ANCHORS = ["glue.core.joins:get_mask_with_key_joins", "glue.core.joins:concatena
            "glue.core.link_manager:LinkManager.remove_link"]
 
 SHAPES = ["1-1", "n-n", "1-n", "n-1"]
+NEG_VIEW_KINDS = ["negative_int", "backward_slice", "negative_index_arrays"]
+ALL_VIEW_KINDS = VIEW_KINDS[1:] + NEG_VIEW_KINDS
+
+
+def make_view_ext(rng, shape, kind):
+    if kind not in NEG_VIEW_KINDS:
+        return make_view(rng, shape, kind)
+    nd = len(shape)
+    if kind == "negative_int":
+        v = [(-rng.randint(1, n)) if rng.random() < 0.6 else slice(None) for n in shape]
+        if all(isinstance(x, slice) for x in v):
+            v[0] = -rng.randint(1, shape[0])
+        return tuple(v)
+    if kind == "backward_slice":
+        out = []
+        for n in shape:
+            a, b_ = rng.randrange(0, n), rng.randrange(0, n)
+            out.append(rng.choice([slice(None, None, -1), slice(None, None, -2), slice(max(a, b_), None, -1),
+                                   slice(max(a, b_), min(a, b_), -1), slice(-1, None, -1)]))
+        return tuple(out)
+    k = rng.randint(1, 6)
+    return tuple(np.array([rng.randrange(-n, n) for _ in range(k)]) for n in shape)
 INT_POOL = [-1, 0, 1, 2, 3, 4]
 FLOAT_POOL = [-1.0, 0.0, 0.5, 1.0, 2.0, 3.0, 4.0]
 STR_POOL = ["a", "b", "cc", "dd", "eee"]
 BIG_INT_POOL = list(range(-2, 9))
 BIG_FLOAT_POOL = [-1.0, -0.5, 0.0, 0.5, 1.0, 1.5, 2.0, 2.5, 3.0, 4.0, 5.0]
 BIG_STR_POOL = ["a", "b", "cc", "dd", "eee", "f", "gg", "hhh", "ab", "ba"]
-SAME_DTYPES = ["int64", "int64", "float64", "str", "int32", "float32"]
-PAIRINGS = ["same", "same", "same", "int_vs_float", "int_width", "float_width", "str_width", "neg_zero"]
+SAME_DTYPES = ["int64", "int64", "float64", "str", "str", "int32", "float32", "int8", "uint8", "uint16", "int16", ">i4", ">f8",
+               "object"]
+PAIRINGS = ["same", "same", "same", "same", "int_vs_float", "int_width", "float_width", "str_width", "neg_zero",
+            "uint_vs_int", "byte_order", "object_vs_U"]
+PAIRING_CLASSES = ["same", "int_vs_float", "int_width", "float_width", "str_width", "neg_zero", "uint_vs_int", "byte_order",
+                   "object_vs_U"]
+try:
+    import dask.array  # noqa
+    HAVE_DASK = True
+except Exception:  # noqa
+    HAVE_DASK = False
 
 
 class DepthExceeded(BaseException):
@@ -65,6 +99,7 @@ class DepthExceeded(BaseException):
 
 
 class _Monitor:
+    last_container = None
     depth = 0
     limit = 0
     max_seen = 0
@@ -89,39 +124,122 @@ def setup(ctx):
 
 
 # ---------------------------------------------------------------- generation (descriptors are plain data)
-def gen_column(rng, n, kind, width=None, negzero=None, pool_size=None):
-    """kind in int64/int32/float64/float32/str -> {"dtype":..., "values":[...]} (flat list of n values).
-    pool_size: draw from the first pool_size values of the big pools (large tables, controls duplication)."""
-    ipool, fpool, spool = INT_POOL, FLOAT_POOL, STR_POOL
-    if pool_size is not None:
-        ipool, fpool, spool = BIG_INT_POOL[:pool_size + 1], BIG_FLOAT_POOL[:pool_size + 1], BIG_STR_POOL[:pool_size]
-    if kind.startswith("int"):
-        vals = [rng.choice(ipool) for _ in range(n)]
-        return {"dtype": kind, "values": vals}
-    if kind.startswith("float"):
-        vals = [rng.choice(fpool) for _ in range(n)]
-        if negzero == "neg":
-            vals = [(-0.0 if v == 0.0 else v) for v in vals]
-            if n and not any(v == 0.0 for v in vals):
-                vals[rng.randrange(n)] = -0.0
-        elif negzero == "pos":
-            if n and not any(v == 0.0 for v in vals):
-                vals[rng.randrange(n)] = 0.0
-        return {"dtype": kind, "values": vals}
-    if kind == "str":
+STR_PREFIX_POOL = ["", "a", "ab", "abc", "b", "ba"]
+SCALES = ["unit"] * 12 + ["large", "large", "tiny", "near_equal", "extreme"]
+NUM_POOLS = {
+    "unit": [-1, 0, 1, 2, 3, 4, 0.5],
+    "large": [10 ** 12, 10 ** 12 + 1, -10 ** 12, 2 ** 40, 2 ** 40 + 2 ** 20, 65535, 65536, 255, 256, 0, 2.5e11, 1e12 + 0.5],
+    "tiny": [1e-10, 2e-10, 1e-10 * (1 + 1e-9), -1e-10, 0.0, 1.0, 1e-300],
+    "near_equal": [1.0, 1.0 + 1e-12, 1.0 - 1e-12, 1e6, 1e6 * (1 + 1e-13), 0.1 + 0.2, 0.3, 3],
+    "extreme": [127, 128, -128, -129, 32767, 32768, 2 ** 31 - 1, 2 ** 31, -2 ** 31, 2 ** 53, -1, 0, 200, -56, 40000, -25536, 1.5],
+}
+LAYOUTS = ["contiguous"] * 8 + ["strided", "reversed", "readonly", "fortran", "broadcast"]
+
+
+def is_str(col):
+    return col["dtype"].startswith("<U") or col["dtype"] == "object"
+
+
+def storable(v, dt):
+    dt = np.dtype(dt)
+    if dt.kind in "iu":
+        if isinstance(v, float) and v != int(v):
+            return False
+        info = np.iinfo(dt)
+        return info.min <= v <= info.max
+    return bool(np.isfinite(np.array(v, dtype=dt)))
+
+
+def gen_column(rng, n, kind, width=None, negzero=None, pool_size=None, scale="unit", str_pool="normal", partner=None):
+    """kind: numpy dtype name (int8..int64, uint8..uint32, float32/64, '>i4', '>i8', '>f4', '>f8'), 'str' or 'object'
+    -> {"dtype", "values" (flat list of n values AS STORED), "layout", "storage"}.
+    pool_size: draw from the first pool_size values of the big pools (large tables, controls duplication).
+    partner: dtype name of the column this one is compared with (values are drawn so that both can store most)."""
+    if kind in ("str", "object"):
+        spool = STR_PREFIX_POOL if str_pool == "prefix" else STR_POOL
+        if pool_size is not None:
+            spool = BIG_STR_POOL[:pool_size]
         vals = [rng.choice(spool) for _ in range(n)]
-        w = 3 if width is None else max(3, width)
-        return {"dtype": "<U%d" % w, "values": vals}
-    raise ValueError(kind)
+        if kind == "object":
+            col = {"dtype": "object", "values": vals}
+        else:
+            w = 3 if width is None else max(3, width)
+            col = {"dtype": "<U%d" % w, "values": vals}
+    else:
+        dt = np.dtype(kind)
+        if pool_size is not None:
+            pool = (BIG_INT_POOL if dt.kind in "iu" else BIG_FLOAT_POOL)[:pool_size + 1]
+        else:
+            pool = NUM_POOLS[scale]
+        pool = [v for v in pool if storable(v, dt)]
+        if partner is not None and partner not in ("str", "object") and rng.random() < 0.8:
+            both = [v for v in pool if storable(v, partner)]
+            pool = both if len(both) >= 2 else pool
+        if len(pool) < 2:
+            pool = [0, 1]
+        vals = [rng.choice(pool) for _ in range(n)]
+        if dt.kind == "f":
+            if negzero == "neg":
+                vals = [(-0.0 if v == 0.0 else v) for v in vals]
+                if n and not any(v == 0.0 for v in vals):
+                    vals[rng.randrange(n)] = -0.0
+            elif negzero == "pos":
+                if n and not any(v == 0.0 for v in vals):
+                    vals[rng.randrange(n)] = 0.0
+        vals = np.array(vals, dtype=dt).tolist() if n else []     # the values as stored (float32 rounding etc.)
+        col = {"dtype": kind, "values": vals}
+    layout = rng.choice(LAYOUTS) if pool_size is None else "contiguous"
+    if layout == "broadcast":
+        if n == 0:
+            layout = "contiguous"
+        else:
+            col["values"] = [col["values"][0]] * n       # a stride-0 column is constant
+    col["layout"] = layout
+    col["scale"] = scale if (pool_size is None and kind not in ("str", "object")) else ("big_pool" if pool_size else str_pool)
+    col["storage"] = "numpy"
+    if (layout == "contiguous" and kind not in ("str", "object") and np.dtype(kind).isnative and HAVE_DASK
+            and n > 0 and rng.random() < 0.025):
+        col["storage"] = "dask"
+    return col
 
 
 def column_array(col, shape):
+    """the array handed to glue: logical content = col['values'], memory layout / container as requested"""
     dt = col["dtype"]
-    return np.array(col["values"], dtype=dt).reshape(shape)
+    shape = tuple(shape)
+    if dt == "object":
+        base = np.empty(len(col["values"]), dtype=object)
+        base[:] = col["values"]
+        base = base.reshape(shape)
+    else:
+        base = np.array(col["values"], dtype=dt).reshape(shape)
+    layout = col.get("layout", "contiguous")
+    if layout == "strided":
+        big = np.zeros(shape[:-1] + (shape[-1] * 2,), dtype=base.dtype)
+        big[..., ::2] = base
+        arr = big[..., ::2]
+    elif layout == "reversed":
+        arr = np.ascontiguousarray(base[..., ::-1])[..., ::-1]
+    elif layout == "readonly":
+        arr = base
+        arr.setflags(write=False)
+    elif layout == "fortran":
+        arr = np.asfortranarray(base)
+    elif layout == "broadcast":
+        arr = np.broadcast_to(base.ravel()[0], shape)
+    else:
+        arr = base
+    if col.get("storage") == "dask":
+        import dask.array as da
+        return da.from_array(arr, chunks=max(1, arr.shape[0] // 2))
+    return arr
 
 
 def pair_class(ca, cb):
     da, db = np.dtype(ca["dtype"]), np.dtype(cb["dtype"])
+    kinds = {da.kind, db.kind}
+    if "O" in kinds:
+        return "object_str" if da == db else "object_vs_U"
     if da == db:
         if da.kind == "f":
             def signs(vals):
@@ -130,11 +248,16 @@ def pair_class(ca, cb):
             if ("neg" in sa and "pos" in sb) or ("pos" in sa and "neg" in sb):
                 return "neg_zero"
         return "same"
-    kinds = {da.kind, db.kind}
-    if kinds == {"i", "f"}:
+    if da.kind == db.kind and da.itemsize == db.itemsize and da.kind in "iuf":
+        return "byte_order"
+    if kinds in ({"i", "f"}, {"u", "f"}):
         return "int_vs_float"
     if kinds == {"i"}:
         return "int_width"
+    if kinds == {"u"}:
+        return "uint_width"
+    if kinds == {"u", "i"}:
+        return "uint_vs_int"
     if kinds == {"f"}:
         return "float_width"
     if kinds == {"U"}:
@@ -157,14 +280,23 @@ def gen_edge_columns(rng, na, nb, shape, pairing, pool_size=None):
     # the odd pairing (X on side a, Y on side b) is applied to >= 1 position; every other position pairs equal dtypes
     odd = set(rng.sample(range(kmax), rng.randint(1, kmax))) if pairing != "same" else set()
     kwx, kwy = {}, {}
+    scale = rng.choice(SCALES) if pool_size is None else "unit"
+    common = {"pool_size": pool_size, "scale": scale, "str_pool": rng.choice(["normal", "normal", "prefix"])}
     if pairing == "same":
         x = y = rng.choice(SAME_DTYPES)
     elif pairing == "int_vs_float":
-        x, y = rng.choice(["int64", "int32"]), rng.choice(["float64", "float64", "float32"])
+        x, y = rng.choice(["int64", "int32", "int16", "uint8"]), rng.choice(["float64", "float64", "float32", ">f8"])
     elif pairing == "int_width":
-        x, y = "int32", "int64"
+        x, y = rng.choice([("int32", "int64"), ("int8", "int16"), ("int16", "int64"), ("int8", "int32")])
     elif pairing == "float_width":
-        x, y = "float32", "float64"
+        x, y = rng.choice([("float32", "float64"), ("float32", ">f8")])
+    elif pairing == "uint_vs_int":
+        x, y = rng.choice([("uint8", "int8"), ("uint8", "int16"), ("uint16", "int16"), ("uint16", "int32"), ("uint32", "int64"),
+                           ("uint8", "int64")])
+    elif pairing == "byte_order":
+        x, y = rng.choice([(">i4", "int32"), (">i8", "int64"), (">f8", "float64"), (">f4", "float32")])
+    elif pairing == "object_vs_U":
+        x, y = "object", "str"
     elif pairing == "str_width":
         x, y, kwy = "str", "str", {"width": rng.choice([4, 6])}
     elif pairing == "neg_zero":
@@ -178,21 +310,21 @@ def gen_edge_columns(rng, na, nb, shape, pairing, pool_size=None):
     for i in range(kmax):
         if ka == kb:
             if i in odd:
-                cols_a.append(gen_column(rng, na, x, pool_size=pool_size, **kwx))
-                cols_b.append(gen_column(rng, nb, y, pool_size=pool_size, **kwy))
+                cols_a.append(gen_column(rng, na, x, partner=y, **common, **kwx))
+                cols_b.append(gen_column(rng, nb, y, partner=x, **common, **kwy))
             else:
-                z = rng.choice(SAME_DTYPES)
-                cols_a.append(gen_column(rng, na, z, pool_size=pool_size))
-                cols_b.append(gen_column(rng, nb, z, pool_size=pool_size))
+                z = rng.choice(["int64", "float64", "str", "int32"])
+                cols_a.append(gen_column(rng, na, z, **common))
+                cols_b.append(gen_column(rng, nb, z, **common))
         elif ka == 1:
             # single column (dtype x) on side a; side b: y on the odd positions, x elsewhere
             if i == 0:
-                cols_a.append(gen_column(rng, na, x, pool_size=pool_size, **kwx))
-            cols_b.append(gen_column(rng, nb, y, pool_size=pool_size, **kwy) if i in odd else gen_column(rng, nb, x, pool_size=pool_size, **kwx))
+                cols_a.append(gen_column(rng, na, x, partner=y, **common, **kwx))
+            cols_b.append(gen_column(rng, nb, y, partner=x, **common, **kwy) if i in odd else gen_column(rng, nb, x, partner=y, **common, **kwx))
         else:
             if i == 0:
-                cols_b.append(gen_column(rng, nb, y, pool_size=pool_size, **kwy))
-            cols_a.append(gen_column(rng, na, x, pool_size=pool_size, **kwx) if i in odd else gen_column(rng, na, y, pool_size=pool_size, **kwy))
+                cols_b.append(gen_column(rng, nb, y, partner=x, **common, **kwy))
+            cols_a.append(gen_column(rng, na, x, partner=y, **common, **kwx) if i in odd else gen_column(rng, na, y, partner=x, **common, **kwy))
     return cols_a, cols_b
 
 
@@ -244,6 +376,8 @@ def gen_graph(rng, tier, large=False):
     for t in range(nt):
         if large:
             shape = [rng.randint(60, 300)]
+        elif rng.random() < 0.03:
+            shape = [0]
         elif rng.random() < 0.15:
             shape = [rng.randint(1, 3), rng.randint(1, 3)]
         else:
@@ -251,7 +385,7 @@ def gen_graph(rng, tier, large=False):
         n = int(np.prod(shape))
         perm = list(range(n))
         rng.shuffle(perm)
-        tables.append({"shape": shape, "v": [float(p) for p in perm], "cols": {}})
+        tables.append({"shape": shape, "v": [float(p) for p in perm], "cols": {}, "first_keys": []})
     edescs = []
     for ei, (a, b) in enumerate(edges):
         if rng.random() < 0.5:
@@ -263,14 +397,31 @@ def gen_graph(rng, tier, large=False):
         na, nb = len(tables[a]["v"]), len(tables[b]["v"])
         cols_a, cols_b = gen_edge_columns(rng, na, nb, shape, pairing, pool_size=rng.choice([3, 5, 9]) if large else None)
         names_a, names_b = [], []
-        for i, c in enumerate(cols_a):
-            name = "k%d_%d" % (ei, i)
-            tables[a]["cols"][name] = c
-            names_a.append(name)
-        for i, c in enumerate(cols_b):
-            name = "k%d_%d" % (ei, i)
-            tables[b]["cols"][name] = c
-            names_b.append(name)
+        for side, cols, names in ((a, cols_a, names_a), (b, cols_b, names_b)):
+            tab = tables[side]
+            for i, c in enumerate(cols):
+                name = "k%d_%d" % (ei, i)
+                r = rng.random()
+                if not large and i == 0 and r < 0.15 and tab["first_keys"] and is_str(tab["cols"][tab["first_keys"][0]]) == is_str(c):
+                    name = tab["first_keys"][0]              # the same column object serves two joins
+                    cols[i] = tab["cols"][name]
+                    names.append(name)
+                    continue
+                if (not large and i == 1 and len(cols) == len(cols_a) == len(cols_b) and r < 0.08
+                        and is_str(cols[0]) == is_str(cols[1])):
+                    names.append(names[0])                   # the same column twice in one key tuple
+                    cols[i] = tab["cols"][names[0]]
+                    continue
+                if not large and not is_str(c) and len(tab["shape"]) == 1 and c["storage"] == "numpy":
+                    if r > 0.95 and np.dtype(c["dtype"]).isnative:
+                        c["key_kind"] = "derived"            # key = DerivedComponent (hidden base column * 1)
+                    elif r > 0.9:
+                        c.update(key_kind="pixel", dtype="float64", layout="contiguous",
+                                 values=[float(j) for j in range(len(tab["v"]))])   # key = the row number
+                tab["cols"][name] = c
+                names.append(name)
+            if names and not tab["first_keys"]:
+                tab["first_keys"].append(names[0])
         via = "join_on_key"
         if shape == "1-1" and rng.random() < 0.35:
             via = "JoinLink"
@@ -278,8 +429,14 @@ def gen_graph(rng, tier, large=False):
                        "dtype_pair": edge_class(cols_a, cols_b), "via": via,
                        "caller": rng.choice(["a", "b"]), "ids": rng.choice(["names", "cids"]),
                        "single_as_scalar": rng.random() < 0.5})
-    return {"topology": topo, "tables": tables, "edges": edescs, "large": large, "in_collection": rng.random() < 0.5 or
-            any(e["via"] == "JoinLink" for e in edescs)}
+    sanitize_columns({"tables": tables, "topology": topo})
+    for e in edescs:
+        e["dtype_pair"] = edge_class([tables[e["a"]]["cols"][n] for n in e["cols_a"]],
+                                     [tables[e["b"]]["cols"][n] for n in e["cols_b"]])
+    in_coll = rng.random() < 0.5 or any(e["via"] == "JoinLink" for e in edescs)
+    link_source = rng.randrange(nt) if (in_coll and rng.random() < 0.35) else None
+    return {"topology": topo, "tables": tables, "edges": edescs, "large": large, "link_source": link_source,
+            "in_collection": in_coll}
 
 
 def gen_selection(rng, table, large=False):
@@ -289,6 +446,8 @@ def gen_selection(rng, table, large=False):
         k = rng.choice([1, n, rng.randint(20, min(100, n)), rng.randint(20, min(100, n)), rng.randint(20, min(100, n)),
                         rng.randint(2, 19), rng.randint(min(100, n), n)])
         return {"op": "gt", "thr": n - k - 0.5}
+    if n == 0:
+        return rng.choice([{"op": "all"}, {"op": "empty"}, {"op": "gt", "thr": 0.5}])
     r = rng.random()
     if r < 0.4:
         return {"op": "gt", "thr": rng.randrange(-1, n) + 0.5}
@@ -297,11 +456,18 @@ def gen_selection(rng, table, large=False):
         return {"op": "range", "lo": lo, "hi": lo + rng.randint(1, max(1, n // 2))}
     if r < 0.7:
         return {"op": "or", "lt": rng.randrange(0, n) - 0.5, "gt": rng.randrange(0, n) + 0.5}
-    if r < 0.8:
+    if r < 0.76:
         return {"op": "empty"}
-    if r < 0.87:
+    if r < 0.8:
         return {"op": "all"}
-    numeric = [k for k, c in sorted(table["cols"].items()) if not c["dtype"].startswith("<U")]
+    if r < 0.83:
+        return {"op": "not_gt", "thr": rng.randrange(-1, n) + 0.5}
+    if r < 0.86:
+        return {"op": "sv_eq", "value": rng.choice(["x", "yy"])}
+    if r < 0.89:
+        lo = float(rng.randrange(0, n))
+        return {"op": "range_state", "lo": lo, "hi": lo + rng.randint(0, max(1, n // 2))}
+    numeric = [k for k, c in sorted(table["cols"].items()) if not is_str(c) and c["values"]]
     if numeric:
         k = rng.choice(numeric)
         return {"op": "key_eq", "col": k, "value": rng.choice(table["cols"][k]["values"])}
@@ -325,6 +491,12 @@ def select_rows(table, sel):
         return (v > sel["lo"]) & (v < sel["hi"])
     if op == "or":
         return (v < sel["lt"]) | (v > sel["gt"])
+    if op == "not_gt":
+        return ~(v > sel["thr"])
+    if op == "sv_eq":
+        return np.array([("x", "yy")[i % 2] == sel["value"] for i in range(len(v))], dtype=bool)
+    if op == "range_state":
+        return (v >= sel["lo"]) & (v <= sel["hi"])
     if op == "empty":
         return np.zeros(len(v), dtype=bool)
     if op == "all":
@@ -414,35 +586,68 @@ class Built:
             shape = tuple(tab["shape"])
             d.add_component(np.array(tab["v"], dtype=float).reshape(shape), "v")
             for name, col in tab["cols"].items():
-                d.add_component(column_array(col, shape), name)
+                self.add_key_column(d, name, col, shape)
             self.datas.append(d)
             nel = int(np.prod(shape))
             d.add_component(np.array(["x", "yy"] * ((nel + 1) // 2))[:nel].reshape(shape), "sv")   # only used by fault queries
         self.faults_so_far = 0
         self.foreign = Data(label="foreign", z=np.array([1.0, 2.0, 3.0]))
         self.dc = DataCollection(list(self.datas) + [self.foreign]) if desc["in_collection"] else None
+        self.link_x = None
+        if self.dc is not None and desc.get("link_source") is not None:
+            # a selection defined on another dataset's attribute that the source table reaches through a component link
+            self.linked = Data(label="linked", x=np.array([5.0, 6.0, 7.0, 8.0]))
+            self.dc.append(self.linked)
+            self.link_x = self.linked.id["x"]
+            self.dc.add_link(LinkSame(self.link_x, self.datas[desc["link_source"]].id["v"]))
         self.joinlinks = {}
         for ei, e in enumerate(desc["edges"]):
-            A, B = self.datas[e["a"]], self.datas[e["b"]]
             if e["via"] == "JoinLink":
-                if e["caller"] == "a":
-                    jl = JoinLink(cids1=[A.id[e["cols_a"][0]]], cids2=[B.id[e["cols_b"][0]]], data1=A, data2=B)
-                else:
-                    jl = JoinLink(cids1=[B.id[e["cols_b"][0]]], cids2=[A.id[e["cols_a"][0]]], data1=B, data2=A)
+                jl = self.make_joinlink(e, e["caller"])
                 self.dc.add_link(jl)
                 self.joinlinks[ei] = jl
                 continue
+            self.join(e)
 
-            def ids(d, names):
-                if e["ids"] == "cids":
-                    out = tuple(d.id[n] for n in names)
-                else:
-                    out = tuple(names)
-                return out[0] if len(out) == 1 and e["single_as_scalar"] else out
-            if e["caller"] == "a":
-                A.join_on_key(B, ids(A, e["cols_a"]), ids(B, e["cols_b"]))
+    def make_joinlink(self, e, first_side):
+        A, B = self.datas[e["a"]], self.datas[e["b"]]
+        ca, cb = self.cid(e["a"], e["cols_a"][0]), self.cid(e["b"], e["cols_b"][0])
+        if first_side == "a":
+            return JoinLink(cids1=[ca], cids2=[cb], data1=A, data2=B)
+        return JoinLink(cids1=[cb], cids2=[ca], data1=B, data2=A)
+
+    def join(self, e):
+        A, B = self.datas[e["a"]], self.datas[e["b"]]
+
+        def ids(t, names):
+            special = any(self.desc["tables"][t]["cols"][n].get("key_kind") == "pixel" for n in names)
+            if e["ids"] == "cids" or special:
+                out = tuple(self.cid(t, n) for n in names)
             else:
-                B.join_on_key(A, ids(B, e["cols_b"]), ids(A, e["cols_a"]))
+                out = tuple(names)
+            return out[0] if len(out) == 1 and e["single_as_scalar"] else out
+        if e["caller"] == "a":
+            A.join_on_key(B, ids(e["a"], e["cols_a"]), ids(e["b"], e["cols_b"]))
+        else:
+            B.join_on_key(A, ids(e["b"], e["cols_b"]), ids(e["a"], e["cols_a"]))
+
+    @staticmethod
+    def add_key_column(d, name, col, shape):
+        kind = col.get("key_kind", "main")
+        if kind == "pixel":
+            return
+        if kind == "derived":
+            d.add_component(column_array(col, shape), name + "_base")
+            d.add_component_link(d.id[name + "_base"] * 1, name)
+        else:
+            d.add_component(column_array(col, shape), name)
+
+    def cid(self, t, name):
+        col = self.desc["tables"][t]["cols"][name]
+        d = self.datas[t]
+        if col.get("key_kind") == "pixel":
+            return d.pixel_component_ids[0]
+        return d.id[name]
 
     def state(self, src, sel):
         if src == "foreign":
@@ -457,8 +662,14 @@ class Built:
             if sel["fault"] == "mask_wrong_shape":
                 return MaskSubsetState(np.ones(n + 2, dtype=bool), d.pixel_component_ids)
             raise ValueError(sel)
-        v = d.id["v"]
+        v = self.link_x if sel.get("via_link") else d.id["v"]
         op = sel["op"]
+        if op == "not_gt":
+            return ~(v > sel["thr"])
+        if op == "sv_eq":
+            return d.id["sv"] == sel["value"]
+        if op == "range_state":
+            return RangeSubsetState(sel["lo"], sel["hi"], att=v)
         if op == "gt":
             return v > sel["thr"]
         if op == "range":
@@ -470,7 +681,7 @@ class Built:
         if op == "all":
             return v > -1e9
         if op == "key_eq":
-            return d.id[sel["col"]] == sel["value"]
+            return self.cid(src, sel["col"]) == sel["value"]
         raise ValueError(op)
 
 
@@ -484,6 +695,7 @@ def observe(data, state, view, ntables):
             m = data.get_mask(state)
         else:
             m = data.get_mask(state, view=view)
+        _Monitor.last_container = type(m).__name__
         return ("mask", np.asarray(m))
     except IncompatibleAttribute:
         return ("incompatible",)
@@ -496,6 +708,117 @@ def observe(data, state, view, ntables):
     finally:
         _Monitor.limit = 0
         _Monitor.depth = 0
+
+
+def observe_subset(data, state, view, ntables):
+    """the same question asked the way a viewer asks it: through a Subset of the table"""
+    sub = data.new_subset()
+    try:
+        sub.subset_state = state
+        _Monitor.limit = ntables + 1
+        _Monitor.depth = 0
+        try:
+            m = sub.to_mask(view) if view is not None else sub.to_mask()
+            _Monitor.last_container = type(m).__name__
+            return ("mask", np.asarray(m))
+        except IncompatibleAttribute:
+            return ("incompatible",)
+        except DepthExceeded:
+            return ("exception", "recursion_deeper_than_number_of_tables")
+        except Exception as exc:  # noqa
+            return ("exception", type(exc).__name__)
+        finally:
+            _Monitor.limit = 0
+            _Monitor.depth = 0
+    finally:
+        try:
+            sub.delete()
+        except Exception:  # noqa
+            pass
+
+
+class _Reader(HubListener):
+    def __init__(self):
+        self.result = None
+
+
+def group_query(ctx, b, desc, adj, phase, s, sel, rng):
+    """A subset group of the collection gets the selection; a hub listener reads every table's subset mask from
+    INSIDE the first SubsetUpdateMessage delivery (re-entrant read while the change is being broadcast), and the
+    masks are read again afterwards."""
+    nt = len(desc["tables"])
+    state = b.state(s, sel)
+    src_mask = select_rows(desc["tables"][s], sel)
+    reader = _Reader()
+    grp = b.dc.new_subset_group(label="g")
+    by_table = {}
+    for sub in grp.subsets:
+        for t, d in enumerate(b.datas):
+            if sub.data is d:
+                by_table[t] = sub
+
+    def read_all():
+        out = {}
+        for t, sub in by_table.items():
+            _Monitor.limit, _Monitor.depth = nt + 1, 0
+            try:
+                out[t] = ("mask", np.asarray(sub.to_mask()))
+            except IncompatibleAttribute:
+                out[t] = ("incompatible",)
+            except DepthExceeded:
+                out[t] = ("exception", "recursion_deeper_than_number_of_tables")
+            except Exception as exc:  # noqa
+                out[t] = ("exception", type(exc).__name__)
+            finally:
+                _Monitor.limit, _Monitor.depth = 0, 0
+        return out
+
+    def handler(msg):
+        if reader.result is None and msg.subset in list(by_table.values()):
+            reader.result = read_all()
+    b.dc.hub.subscribe(reader, SubsetUpdateMessage, handler=handler)
+    try:
+        grp.subset_state = state
+        after = read_all()
+    finally:
+        b.dc.hub.unsubscribe_all(reader)
+        b.dc.remove_subset_group(grp)
+    ctx.count("group_queries")
+    if reader.result is None:
+        ctx.count("group_query_no_message_seen")
+    for where, res in (("in_handler", reader.result or {}), ("after_broadcast", after)):
+        for t, got in res.items():
+            tab = desc["tables"][t]
+            if t == s:
+                exp_set = [src_mask]
+            else:
+                paths = simple_paths(adj, s, t)
+                exp_set = []
+                for p_ in paths:
+                    m = propagate(desc, p_, src_mask)
+                    if not any(np.array_equal(m, o) for o in exp_set):
+                        exp_set.append(m)
+                if not paths:
+                    exp_set = []          # nothing can evaluate it: Subset.to_mask lets IncompatibleAttribute through
+            ctx.evaluation([b.desc_hash, phase, "group", where, s, sel, t], nontrivial=any(0 < int(m.sum()) < len(m) for m in exp_set))
+            ctx.count("eval_group_" + where)
+            if got[0] == "mask" and any(same_array(got[1].ravel(), m) for m in exp_set):
+                continue
+            if not exp_set and got[0] == "incompatible":
+                ctx.count("eval_group_expected_incompatible")
+                continue
+            if _graph_has(desc, lambda c: c["dtype"] == "object" or c.get("storage") == "dask"):
+                ctx.count("group_mismatch_on_graph_with_object_or_dask_key_not_reported")
+                continue
+            ctx.violation({"kind": "subset_group_mask_mismatch", "where": where, "got": got[0], "phase": phase,
+                           "exception": got[1] if got[0] == "exception" else None, "topology": desc["topology"],
+                           "target_is_source": t == s, "join_path_exists": t == s or bool(simple_paths(adj, s, t))},
+                          {"graph": desc, "source": s, "selection": sel, "target": t, "observed": got,
+                           "expected_any_of": [m.astype(int).tolist() for m in exp_set]})
+
+
+def _graph_has(desc, pred):
+    return any(pred(c) for tab in desc["tables"] for c in tab["cols"].values())
 
 
 def diff_kind(got, exp):
@@ -513,14 +836,55 @@ def sel_class(mask):
     return "empty" if n == 0 else ("all" if n == len(mask) else "partial")
 
 
+def sanitize_columns(desc):
+    """dask-backed key columns only in 1-d tables; graphs with a cycle get plain columns (no object dtype, no dask)"""
+    for tab in desc["tables"]:
+        for c in tab["cols"].values():
+            if len(tab["shape"]) != 1 or desc["topology"] == "cycle":
+                c["storage"] = "numpy"
+            if desc["topology"] == "cycle" and c["dtype"] == "object":
+                c["dtype"] = "<U3"
+
+
+def rejoin(ctx, b, desc, ei, rng):
+    """join_on_key called AGAIN for an already joined pair, with new key columns and possibly another shape: the later
+    call defines the join (both directions)."""
+    e = desc["edges"][ei]
+    ta, tb = desc["tables"][e["a"]], desc["tables"][e["b"]]
+    shape = rng.choice(SHAPES)
+    pairing = "same" if desc["topology"] == "cycle" else rng.choice(PAIRINGS)
+    cols_a, cols_b = gen_edge_columns(rng, len(ta["v"]), len(tb["v"]), shape, pairing,
+                                      pool_size=rng.choice([3, 5, 9]) if desc.get("large") else None)
+    names = {"a": [], "b": []}
+    for side, tab, cols in (("a", ta, cols_a), ("b", tb, cols_b)):
+        for i, c in enumerate(cols):
+            name = "r%d_%d" % (ei, i)
+            tab["cols"][name] = c
+            names[side].append(name)
+    sanitize_columns(desc)
+    for side, tab, t in (("a", ta, e["a"]), ("b", tb, e["b"])):
+        for name in names[side]:
+            b.add_key_column(b.datas[t], name, tab["cols"][name], tuple(tab["shape"]))
+    e.update(cols_a=names["a"], cols_b=names["b"], shape=shape, caller=rng.choice(["a", "b"]),
+             dtype_pair=edge_class([ta["cols"][n] for n in names["a"]], [tb["cols"][n] for n in names["b"]]))
+    b.join(e)
+    b.desc_hash = stable_hash(desc, 16)
+
+
 def run_graph(ctx, desc, rng):
     b = Built(desc)
     nt = len(desc["tables"])
     live = list(range(len(desc["edges"])))
-    phases = [("initial", None)]
+    phases = [("initial", None, None)]
     removable = sorted(b.joinlinks)
-    if removable and rng.random() < 0.6:
-        phases.append(("after_joinlink_removed", rng.choice(removable)))
+    if removable and rng.random() < 0.75:
+        ei = rng.choice(removable)
+        phases.append(("after_joinlink_removed", ei, rng.choice(["same_object", "equal_object", "flipped_equal_object"])))
+        if rng.random() < 0.5:
+            phases.append(("after_joinlink_readded", ei, None))
+    rejoinable = [i for i, e in enumerate(desc["edges"]) if e["via"] == "join_on_key"]
+    if rejoinable and rng.random() < 0.3:
+        phases.append(("after_rejoin", rng.choice(rejoinable), None))
     ctx.count("graphs")
     ctx.count("topology:" + desc["topology"])
     for e in desc["edges"]:
@@ -528,16 +892,43 @@ def run_graph(ctx, desc, rng):
         ctx.count("edge_dtype_pair:" + e["dtype_pair"])
         ctx.count("edge_shape_dtype:%s:%s" % (e["shape"], e["dtype_pair"]))
         ctx.count("edge_via:" + e["via"])
-    for phase, remove_edge in phases:
-        if remove_edge is not None:
-            try:
-                b.dc.remove_link(b.joinlinks[remove_edge])
-            except Exception as exc:  # noqa
-                ctx.violation({"kind": "exception_removing_joinlink", "exception": type(exc).__name__},
-                              {"graph": desc, "edge": remove_edge, "error": repr(exc)[:300]})
-                return
-            live.remove(remove_edge)
-            ctx.count("joinlink_removals")
+    for tab in desc["tables"]:
+        if len(tab["v"]) == 0:
+            ctx.count("tables_with_zero_rows")
+        for c in tab["cols"].values():
+            ctx.count("column_layout:" + c.get("layout", "contiguous"))
+            ctx.count("column_storage:" + c.get("storage", "numpy"))
+            ctx.count("column_key_kind:" + c.get("key_kind", "main"))
+            ctx.count("column_dtype:" + c["dtype"])
+            ctx.count("column_value_pool:" + c.get("scale", "unit"))
+    for phase, edge, how in phases:
+        try:
+            if phase == "after_joinlink_removed":
+                e = desc["edges"][edge]
+                obj = b.joinlinks[edge]
+                if how == "equal_object":
+                    obj = b.make_joinlink(e, e["caller"])
+                elif how == "flipped_equal_object":
+                    obj = b.make_joinlink(e, "b" if e["caller"] == "a" else "a")
+                b.dc.remove_link(obj)
+                live.remove(edge)
+                ctx.count("joinlink_removals")
+                ctx.count("joinlink_removed_by:" + how)
+            elif phase == "after_joinlink_readded":
+                e = desc["edges"][edge]
+                e["caller"] = rng.choice(["a", "b"])
+                jl = b.make_joinlink(e, e["caller"])
+                b.dc.add_link(jl)
+                b.joinlinks[edge] = jl
+                live.append(edge)
+                ctx.count("joinlink_readded")
+            elif phase == "after_rejoin":
+                rejoin(ctx, b, desc, edge, rng)
+                ctx.count("rejoined_edges")
+        except Exception as exc:  # noqa
+            ctx.violation({"kind": "exception_in_join_history_step", "phase": phase, "how": how, "exception": type(exc).__name__},
+                          {"graph": desc, "edge": edge, "error": repr(exc)[:300]})
+            return
         adj = adjacency(desc, live)
         cyclic = len(live) >= 1 and _has_cycle(nt, [desc["edges"][ei] for ei in live])
         # query history: every (source, target) pair once without a view, some with views, plus foreign sources
@@ -545,27 +936,35 @@ def run_graph(ctx, desc, rng):
         sources = list(range(nt))
         rng.shuffle(sources)
         large = desc.get("large", False)
+        sels = []
         for s in sources[: (2 if nt <= 3 else 3)]:
             for _rep in range(2 if large else 1):
                 sel = gen_selection(rng, desc["tables"][s], large)
+                if b.link_x is not None and s == desc.get("link_source") and sel["op"] in ("gt", "range", "or", "not_gt", "range_state") \
+                        and rng.random() < 0.7:
+                    sel["via_link"] = True
+                sels.append((s, sel))
                 for t in range(nt):
                     if t != s:
                         queries.append((s, sel, t, None))
                         if rng.random() < (0.25 if large else 0.5):
-                            queries.append((s, sel, t, rng.choice(VIEW_KINDS[1:])))
+                            queries.append((s, sel, t, rng.choice(ALL_VIEW_KINDS)))
         # faults: selections whose evaluation on their own table raises something other than IncompatibleAttribute,
         # asked through the joins and interleaved with the valid ones
         if rng.random() < 0.5:
             for _f in range(rng.randint(1, 3)):
                 s, t = rng.sample(range(nt), 2)
                 queries.append((s, {"op": "fault", "fault": rng.choice(FAULTS)}, t, None if rng.random() < 0.8 else
-                                rng.choice(VIEW_KINDS[1:])))
+                                rng.choice(ALL_VIEW_KINDS)))
         for t in range(nt):
             if rng.random() < 0.6:
-                queries.append(("foreign", None, t, None if rng.random() < 0.7 else rng.choice(VIEW_KINDS[1:])))
+                queries.append(("foreign", None, t, None if rng.random() < 0.7 else rng.choice(ALL_VIEW_KINDS)))
         rng.shuffle(queries)
         for (s, sel, t, vkind) in queries:
             one_query(ctx, b, desc, adj, cyclic, phase, s, sel, t, vkind, rng)
+        if b.dc is not None and sels and rng.random() < 0.35:
+            s, sel = rng.choice(sels)
+            group_query(ctx, b, desc, adj, phase, s, sel, rng)
 
 
 FAULTS = ["str_gt_number", "element_out_of_range", "element_out_of_range", "mask_wrong_shape"]
@@ -598,11 +997,16 @@ def fault_query(ctx, b, desc, base_sig, fp, detail, s, sel, t, view, paths):
                       detail(observed=got, join_free=own))
 
 
+def _edge_has(desc, e, pred):
+    return any(pred(desc["tables"][side]["cols"][c]) for side, names in ((e["a"], e["cols_a"]), (e["b"], e["cols_b"]))
+               for c in names)
+
+
 def _neg_int_key(desc, e):
     for side, names in ((e["a"], e["cols_a"]), (e["b"], e["cols_b"])):
         for c in names:
             col = desc["tables"][side]["cols"][c]
-            if col["dtype"].startswith("int") and any(v < 0 for v in col["values"]):
+            if np.dtype(col["dtype"]).kind == "i" and any(v < 0 for v in col["values"]):
                 return True
     return False
 
@@ -626,11 +1030,17 @@ def one_query(ctx, b, desc, adj, cyclic, phase, s, sel, t, vkind, rng):
     nt = len(desc["tables"])
     T = b.datas[t]
     tshape = tuple(desc["tables"][t]["shape"])
-    view = make_view(rng, tshape, vkind) if vkind else None
+    if vkind in NEG_VIEW_KINDS and _graph_has(desc, lambda c: c.get("key_kind") == "pixel"):
+        vkind = "index_arrays"     # pixel attributes are computed from the index values: negative indices are outside C04's domain
+    if vkind and int(np.prod(tshape)) == 0 and vkind not in ("ellipsis", "bare_slice", "slice_tuple_full",
+                                                             "empty_slice", "slice_tuple_short"):
+        vkind = "slice_tuple_full"          # integer / index-array views do not exist on a zero-row table
+    view = make_view_ext(rng, tshape, vkind) if vkind else None
     vdesc = describe_view(view)
     large = desc.get("large", False)
     base_sig = {"topology": desc["topology"], "phase": phase, "view_kind": vkind or "none", "in_collection": desc["in_collection"],
-                "after_fault": b.faults_so_far > 0, "large_tables": large}
+                "after_fault": b.faults_so_far > 0, "large_tables": large,
+                "selection_through_link": bool(sel and sel.get("via_link"))}
     paths = [] if s == "foreign" else simple_paths(adj, s, t)
     fp = [b.desc_hash, phase, s, sel, t, vdesc]
     detail = lambda **kw: dict({"graph": desc, "phase": phase, "source": s, "selection": sel, "target": t, "view": vdesc}, **kw)
@@ -667,7 +1077,12 @@ def one_query(ctx, b, desc, adj, cyclic, phase, s, sel, t, vkind, rng):
         m = propagate(desc, p, src_mask)
         if not any(np.array_equal(m, o) for o in exp_set):
             exp_set.append(m)
-    got = observe(T, state, view, nt)
+    route = "subset" if rng.random() < 0.2 else "get_mask"
+    got = observe(T, state, view, nt) if route == "get_mask" else observe_subset(T, state, view, nt)
+    ctx.count("eval_route:" + route)
+    if sel.get("via_link"):
+        ctx.count("eval_selection_defined_through_component_link")
+    ctx.count("eval_selection_op:" + sel["op"])
     nontrivial = any(0 < int(m.sum()) < len(m) for m in exp_set)
     ctx.evaluation(fp, nontrivial=nontrivial)
     first = paths[0]
@@ -714,7 +1129,7 @@ def one_query(ctx, b, desc, adj, cyclic, phase, s, sel, t, vkind, rng):
         for _node, _nxt, _ei in [p[0] for p in paths]:
             _e = desc["edges"][_ei]
             if edge_shape_from(desc, _ei, t) == "n-n" and any(
-                    desc["tables"][_e["a"]]["cols"][c]["dtype"].startswith("<U") for c in _e["cols_a"]):
+                    is_str(desc["tables"][_e["a"]]["cols"][c]) for c in _e["cols_a"]):
                 nn_str = True
         sig = dict(base_sig, kind="mask_mismatch_on_cyclic_graph" if got[0] == "mask" else "failed_on_cyclic_graph",
                    got=got[0], exception=got[1] if got[0] == "exception" else None,
@@ -724,8 +1139,10 @@ def one_query(ctx, b, desc, adj, cyclic, phase, s, sel, t, vkind, rng):
 
     # unique path: attribute to the first hop whose output is not the hop function of its observed input
     node, nxt, ei = first[0]
+    upstream_container = None
     if len(first) >= 2:
         up = observe(b.datas[nxt], state, None, nt)
+        upstream_container = _Monitor.last_container if up[0] == "mask" else None
         if up[0] == "mask" and up[1].dtype == bool and up[1].size == len(desc["tables"][nxt]["v"]):
             cl, cr = edge_sides(desc, ei, node, nxt)
             local = hop(desc["tables"][node], cl, desc["tables"][nxt], cr, up[1].ravel())
@@ -740,10 +1157,13 @@ def one_query(ctx, b, desc, adj, cyclic, phase, s, sel, t, vkind, rng):
                 return
     exp = exp_set[0]
     e = desc["edges"][ei]
-    str_key = any(desc["tables"][e["a"]]["cols"][c]["dtype"].startswith("<U") for c in e["cols_a"])
+    str_key = any(is_str(desc["tables"][e["a"]]["cols"][c]) for c in e["cols_a"])
     sig = dict(base_sig, shape=hshape, dtype_pair=hclass, hops=min(len(first), 3), via=e["via"],
                selection=sel_class(src_mask), str_key=str_key, scalar_view=np.ndim(expected_view(exp_set[0])) == 0,
-               neg_int_key=_neg_int_key(desc, e))
+               neg_int_key=_neg_int_key(desc, e), object_key=_edge_has(desc, e, lambda c: c["dtype"] == "object"),
+               dask_key=_edge_has(desc, e, lambda c: c.get("storage") == "dask"),
+               upstream_mask_container=upstream_container,
+               upstream_single_row=len(first) >= 2 and len(desc["tables"][nxt]["v"]) == 1)
     if got[0] == "mask":
         ev = expected_view(exp)
         if got[1].dtype != bool:
@@ -760,7 +1180,7 @@ def one_query(ctx, b, desc, adj, cyclic, phase, s, sel, t, vkind, rng):
 
 
 # ---------------------------------------------------------------- driver interface
-N_BLOCKS = {"quick": 320, "thorough": 16000}
+N_BLOCKS = {"quick": 256, "thorough": 16000}
 PER_BLOCK = 9        # small graphs per block, plus one graph with large tables
 
 
@@ -783,21 +1203,33 @@ def run_case(ctx, case):
 def floors(counters, tier):
     out = []
     for sh in SHAPES:
-        if counters.get("eval_shape:" + sh, 0) < 1000:
-            out.append("fewer than 1000 mask comparisons for join shape %s" % sh)
-        for cl in ["same", "int_vs_float", "int_width", "float_width", "str_width", "neg_zero"]:
-            if counters.get("eval_shape_dtype:%s:%s" % (sh, cl), 0) < 100:
-                out.append("fewer than 100 mask comparisons for shape %s with dtype pairing %s" % (sh, cl))
-    for k, n in [("eval_through_chain", 1500), ("eval_expected_incompatible_on_cyclic_graph", 150),
-                 ("eval_expected_incompatible", 2000), ("eval_multiple_paths_any_accepted", 500),
-                 ("eval_after_joinlink_removed", 500), ("eval_selection:empty", 800), ("eval_selection:partial", 2000),
-                 ("joinlink_removals", 40), ("fault_surfaced_same_exception", 100), ("fault_through_chain", 40),
-                 ("eval_mask_after_fault", 1500), ("eval_mask_after_fault_through_chain", 300),
-                 ("eval_large", 600), ("eval_large_shape:n-n", 250), ("eval_large_nn_many_selected_duplicated_keys", 100),
-                 ("eval_large_selected:one", 30), ("eval_large_selected:all", 30)]:
+        if counters.get("eval_shape:" + sh, 0) < 800:
+            out.append("fewer than 800 mask comparisons for join shape %s" % sh)
+        for cl in PAIRING_CLASSES:
+            if counters.get("eval_shape_dtype:%s:%s" % (sh, cl), 0) < 50:
+                out.append("fewer than 50 mask comparisons for shape %s with dtype pairing %s" % (sh, cl))
+    need = [("eval_through_chain", 1200), ("eval_expected_incompatible_on_cyclic_graph", 120),
+            ("eval_expected_incompatible", 1500), ("eval_multiple_paths_any_accepted", 400),
+            ("eval_after_joinlink_removed", 500), ("eval_selection:empty", 600), ("eval_selection:partial", 2000),
+            ("joinlink_removals", 40), ("fault_surfaced_same_exception", 100), ("fault_through_chain", 40),
+            ("eval_mask_after_fault", 1500), ("eval_mask_after_fault_through_chain", 300),
+            ("eval_large", 500), ("eval_large_shape:n-n", 200), ("eval_large_nn_many_selected_duplicated_keys", 100),
+            ("eval_large_selected:one", 30), ("eval_large_selected:all", 30),
+            # adversarial widening round
+            ("column_layout:strided", 200), ("column_layout:reversed", 200), ("column_layout:broadcast", 200),
+            ("column_layout:fortran", 200), ("column_layout:readonly", 200), ("column_storage:dask", 20),
+            ("column_key_kind:pixel", 100), ("column_key_kind:derived", 80), ("tables_with_zero_rows", 40),
+            ("column_value_pool:large", 200), ("column_value_pool:tiny", 100), ("column_value_pool:near_equal", 100),
+            ("column_value_pool:extreme", 100), ("column_value_pool:prefix", 150), ("column_dtype:object", 100),
+            ("eval_route:subset", 800), ("eval_group_in_handler", 400), ("eval_group_after_broadcast", 400),
+            ("eval_selection_defined_through_component_link", 150), ("rejoined_edges", 120),
+            ("joinlink_removed_by:same_object", 12), ("joinlink_removed_by:equal_object", 12),
+            ("joinlink_removed_by:flipped_equal_object", 12), ("joinlink_readded", 20),
+            ("eval_selection_op:not_gt", 120), ("eval_selection_op:sv_eq", 120), ("eval_selection_op:range_state", 120)]
+    for k, n in need:
         if counters.get(k, 0) < n:
             out.append("fewer than %d %s" % (n, k))
-    for vk in VIEW_KINDS[1:]:
-        if counters.get("eval_view:" + vk, 0) < 150:
-            out.append("fewer than 150 comparisons with view kind %s" % vk)
+    for vk in ALL_VIEW_KINDS:
+        if counters.get("eval_view:" + vk, 0) < 100:
+            out.append("fewer than 100 comparisons with view kind %s" % vk)
     return out
